@@ -394,3 +394,32 @@ class Ensures:
         if missing:
             return False, "success return at %s is not dominated by a successful guard" % missing[0][2]
         return True, "all %d success returns dominated" % len(sites)
+
+
+def leaves(body, op, expand_calls=True, max_nodes=200):
+    """Provenance leaves of an operand with aggregates (tuples/structs/arrays) and, optionally,
+    calls (value built from its arguments) expanded recursively. Returns Origin leaves."""
+    out = []
+    stack = list(trace(body, op))
+    n = 0
+    seen = set()
+    while stack and n < max_nodes:
+        n += 1
+        o = stack.pop()
+        if o.kind == "agg" and o.data[0][0] in ("tuple", "adt", "array"):
+            for x in o.data[1]:
+                if x[0] == "const":
+                    continue
+                stack.extend(trace(body, x))
+        elif o.kind == "expr" and o.data[0] == "repeat" and o.data[1][0] == "const":
+            continue  # [CONST; N]
+        elif o.kind == "call" and expand_calls and o.data["a"] and id(o.data) not in seen:
+            seen.add(id(o.data))
+            nonconst = [a for a in o.data["a"] if a[0] != "const"]
+            if not nonconst:
+                out.append(o)
+            for a in nonconst:
+                stack.extend(trace(body, a))
+        else:
+            out.append(o)
+    return out
